@@ -2,7 +2,7 @@
   C16 -- "modifying a copy or a derived object never changes the original" for RESULT OBJECTS, and "regardless of what
   other circuits the process has handled" for optional dictionary parameters (Model/Alias.lean).
 
-  * `derive_keeps_source`, `derivations_keep_source`   when `Expr.__init__` copies the argument's assumptions object,
+  * `derivation_keeps_source`, `derivations_keep_source`   when `Expr.__init__` copies the argument's assumptions object,
         no sequence of derivations (as_transfer, as_impedance, as_admittance, as_current, ...) changes the assumptions of
         the expression they are derived from;  witness `aliased_derivation_changes_source` for the aliased constructor;
   * `renumber_history_independent`   with a per-call default, `renumber()` answers as `renumber({})` whatever the process
@@ -10,25 +10,10 @@
   The two side conditions are table facts about the source text: Props/C16Tables.lean
   `arguments_not_mutated_through_alias`, `no_mutable_default_arguments`.
 -/
-import Lcapy.Model.Alias
+import Lcapy.Proofs.Alias
 set_option linter.unusedVariables false
 namespace Lcapy.C16
 open Lcapy.Alias
-
-theorem get_alloc_old (h : Heap) (a : Assum) (i : Nat) (hi : i < h.objs.length) : (h.alloc a).1.get i = h.get i := by
-  simp [Heap.alloc, Heap.get, List.getElem?_append, hi]
-
-theorem get_alloc_new (h : Heap) (a : Assum) : (h.alloc a).1.get (h.alloc a).2 = a := by
-  simp [Heap.alloc, Heap.get]
-
-theorem get_set_other (h : Heap) (i j : Nat) (a : Assum) (hij : i ≠ j) : (h.set j a).get i = h.get i := by
-  simp [Heap.set, Heap.get, List.getElem?_set, Ne.symm hij]
-
-theorem alloc_length (h : Heap) (a : Assum) : (h.alloc a).1.objs.length = h.objs.length + 1 := by
-  simp [Heap.alloc]
-
-theorem set_length (h : Heap) (i : Nat) (a : Assum) : (h.set i a).objs.length = h.objs.length := by
-  simp [Heap.set]
 
 /-- ONE DERIVATION with a copying constructor: every object that existed before keeps its assumptions, and nothing
     is deallocated -/
@@ -50,7 +35,7 @@ theorem derive_keeps_all (h : Heap) (src : ExprRef) (ac : Bool) (i : Nat) (hi : 
     rw [this, get_set_other _ _ _ _ hne, get_alloc_old _ _ _ hi]
 
 /-- in particular the source expression of the derivation -/
-theorem derive_keeps_source (h : Heap) (src : ExprRef) (ac : Bool) (hs : src.ass < h.objs.length) :
+theorem derivation_keeps_source (h : Heap) (src : ExprRef) (ac : Bool) (hs : src.ass < h.objs.length) :
     (derive true h src ac).1.get src.ass = h.get src.ass :=
   (derive_keeps_all h src ac src.ass hs).1
 
